@@ -2,13 +2,13 @@ _HELPERS = ["xor_func", "min", "max", "sec", "csc", "cot", "sech", "csch", "coth
             "eq_func", "neq_func", "lt_func", "leq_func", "gt_func", "geq_func", "and_func", "or_func", "not_func"]
 _FLOORS = {"type:ode": 0.1, "type:dae": 0.03, "type:nla": 0.02, "type:algebraic": 0.1, "externals:1": 0.08, "externals:2": 0.03,
            "external-role:state": 0.01, "external-role:computed_constant": 0.03, "nla-system": 0.05, "helpers:0": 0.08,
-           "nonvalid:underconstrained": 0.03, "nonvalid:overconstrained": 0.03, "nonvalid:invalid": 0.01, "nonvalid:unknown": 0.01,
+           "nonvalid:underconstrained": 0.03, "nonvalid:overconstrained": 0.03, "nonvalid:invalid": 0.005, "nonvalid:unknown": 0.01,
            "nonvalid:null": 0.01, "nonvalid:unsuitably_constrained": 0.001}
 # every helper-requiring operator has to occur in the equations of the generated code of at least 1 % of all cases
 _FLOORS.update({"helper:" + h: 0.01 for h in _HELPERS})
 PLAN = {
     "level": "translation_validation",
-    "quick": [replays("C17"), tape("C17", 1600, size=300)],
+    "quick": [replays("C17"), tape("C17", 1000, size=300)],
     "thorough": [replays("C17"), tape("C17", 20000, size=400)],
     "class_floors": _FLOORS,
 }
